@@ -13,13 +13,13 @@ import (
 
 func init() {
 	runner.Register("C20", runner.Scenario{Name: "limiter", Options: func(string) simrt.Options {
-		return simrt.Options{MaxSteps: 40000}
+		return simrt.Options{MaxSteps: 400000}
 	}, Body: limiterBody})
 	runner.Register("C20", runner.Scenario{Name: "limiter-stall", Options: func(string) simrt.Options {
-		return simrt.Options{MaxSteps: 40000, StallPermille: 40, StallMax: 3 * time.Millisecond}
+		return simrt.Options{MaxSteps: 400000, StallPermille: 40, StallMax: 3 * time.Millisecond}
 	}, Body: limiterBody})
 	runner.Register("C20", runner.Scenario{Name: "limiter-preempt", Options: func(string) simrt.Options {
-		return simrt.Options{MaxSteps: 40000, ParkPermille: 15}
+		return simrt.Options{MaxSteps: 400000, ParkPermille: 15}
 	}, Body: limiterBody})
 }
 
@@ -369,9 +369,24 @@ func limiterBody(c *runner.Ctx) {
 	// token any more: its TemporarilyRelease returns even though the limiter is
 	// saturated by others (who may be waiting for exactly that goroutine)
 	if got == n {
-		rels[0]() // make room for one more holder
-		hctx, hrel := concurrencylimiter.Acquire(probeCtx)
-		if hctx != probeCtx {
+		if !callBounded(rels[0]) { // make room for one more holder
+			c.Violate("release-blocked", "release() of a held token did not return within a simulated second")
+			return
+		}
+		// (acquired by a helper: the main task never waits unboundedly on the limiter)
+		var hctx context.Context
+		var hrel concurrencylimiter.ReleaseFunc
+		acquired := false
+		go func() {
+			hctx, hrel = concurrencylimiter.Acquire(probeCtx)
+			acquired = true
+		}()
+		for i := 0; !acquired && i < 2000; i++ {
+			simrt.Sleep(time.Millisecond)
+		}
+		if !acquired {
+			c.Violate("token-lost", "a token was released but a following Acquire did not get it within two simulated seconds")
+		} else if hctx != probeCtx {
 			started, refilled, returned := false, false, false
 			go func() {
 				concurrencylimiter.TemporarilyRelease(hctx, func() {
@@ -403,7 +418,24 @@ func limiterBody(c *runner.Ctx) {
 	}
 	probeCancel()
 	for _, r := range rels {
-		r()
+		if !callBounded(r) {
+			c.Violate("release-blocked", "release() of a held token did not return within a simulated second")
+			return
+		}
 	}
 	simrt.Sleep(time.Second)
+}
+
+// callBounded runs f on a helper task and waits at most a simulated second
+// for it: the main task never blocks on the code under test.
+func callBounded(f func()) bool {
+	done := false
+	go func() {
+		f()
+		done = true
+	}()
+	for i := 0; !done && i < 1000; i++ {
+		simrt.Sleep(time.Millisecond)
+	}
+	return done
 }
